@@ -455,6 +455,8 @@ func init() {
 				out.put(mismatch{sig, det, c})
 			}
 		}
+		reusedRecv := map[string]modelHandler{}
+		reusedPrev := map[string]lCase{}
 		err := readND(a[0], func(i int, raw []byte) error {
 			var c lCase
 			if err := jsonUnmarshal(raw, &c); err != nil {
@@ -517,6 +519,29 @@ func init() {
 				put("parse-differs "+cls, fmt.Sprintf("Version: got %d want %d", vf.Uint(), ver), c)
 				return nil
 			}
+			// 2b. the same bytes parsed by a receiver that has parsed the previous case of this type (handlers are long-lived objects
+			// in the servers) give the same value
+			if prev, ok := reusedRecv[c.Type]; ok {
+				var rerr error
+				pr := protect(func() { rerr = prev.Parse(m) })
+				if pr != "" || rerr != nil {
+					put("reused-receiver-rejects "+cls, fmt.Sprint(pr, rerr), c)
+				} else if d := cmpFields(reflect.ValueOf(prev).Elem(), c.Fields, ""); d != "" {
+					put("reused-receiver-differs "+cls, d, []lCase{reusedPrev[c.Type], c})
+				} else if re2 := prev.(encoder).Encode(); !bytes.Equal(re2, c.Body) {
+					put("reused-receiver-reencode-differs "+cls, fmt.Sprintf("%x vs %x", re2, []byte(c.Body)), []lCase{reusedPrev[c.Type], c})
+				}
+			} else {
+				r0, _, _ := newModel(c.Type)
+				if r1, ok := r0.(*model.T0x0100); ok {
+					r1.Version = 0
+				} else if r1, ok := r0.(*model.T0x0102); ok {
+					r1.Version = 0
+				}
+				protect(func() { r0.Parse(m) })
+				reusedRecv[c.Type] = r0
+			}
+			reusedPrev[c.Type] = c
 			// 3. re-encoding the parsed value gives the identical bytes
 			var re []byte
 			if p := protect(func() { re = h2.(encoder).Encode() }); p != "" || !bytes.Equal(re, c.Body) {
@@ -563,6 +588,7 @@ func init() {
 			stride, off = atoi(a[2]), atoi(a[3])%atoi(a[2])
 		}
 		special := map[rune]bool{0x20AC: true, 0xA4: true, 0xB7: true, 0x4E00: true, 0x9FA5: true, 0x3000: true, 0xFFE5: true, 0xE5E5: true, 0xF92C: true}
+		var heldG, heldU, heldGCopy, heldUCopy []byte
 		for c := rune(0x80); c <= 0xFFFF; c++ {
 			if c >= 0xD800 && c <= 0xDFFF || (int(c)%stride != off && !special[c]) {
 				continue
@@ -572,7 +598,11 @@ func init() {
 			}
 			for _, u := range []string{string(c), "5" + string(c), string(c) + "A1", string(c) + "京" + string(c)} {
 				g := utils.UTF82GBK([]byte(u))
-				out.put(map[string]any{"ev": "gbk", "utf8": B(u), "gbk": B(g), "back": B(utils.GBK2UTF8(g)), "ref": B(gbkRef(u))})
+				back := utils.GBK2UTF8(g)
+				// results handed out earlier keep their bytes while later texts are converted
+				held := heldG == nil || (bytes.Equal(heldG, heldGCopy) && bytes.Equal(heldU, heldUCopy))
+				out.put(map[string]any{"ev": "gbk", "utf8": B(u), "gbk": B(g), "back": B(back), "ref": B(gbkRef(u)), "heldsame": held})
+				heldG, heldU, heldGCopy, heldUCopy = g, back, append([]byte{}, g...), append([]byte{}, back...)
 			}
 		}
 	}
